@@ -81,6 +81,10 @@ class E1Check:
             return False
         return True
 
+    def is_probe(self, op):
+        """Probe transitions are executed and checked but their successors are not enqueued."""
+        return False
+
     def initial_contents(self, cfg):
         return []
 
